@@ -412,7 +412,79 @@ func runC09(c *Ctx) {
 		one(ops)
 		c.count("random")
 	}
+	// the "as of now" entry points (AccountClaims.Revoke, Export.Revoke) are revoke-at with the clock's second:
+	// with stored times in the past AND in the future they must follow the same rule (a later stored time stays)
+	nnow := 300
+	if c.thorough() {
+		nnow = 5000
+	}
+	for i := 0; i < nnow; i++ {
+		ac := jwt.NewAccountClaims("AX")
+		ex := &jwt.Export{Subject: "x", Type: jwt.Stream}
+		ac.Exports.Add(ex)
+		spec := map[string]int64{}
+		nowLo := time.Now().Unix()
+		for j := 0; j < 1+c.Rng.Intn(6); j++ {
+			k := []string{"a", "b", "*"}[c.Rng.Intn(3)]
+			onExport := i%2 == 1
+			if c.Rng.Intn(3) == 0 {
+				// as of now
+				before, had := spec[k]
+				if onExport {
+					ex.Revoke(k)
+				} else {
+					ac.Revoke(k)
+				}
+				nowHi := time.Now().Unix()
+				var got int64
+				if onExport {
+					got = ex.Revocations[k]
+				} else {
+					got = ac.Revocations[k]
+				}
+				c.sum.ImplChecks++
+				okv := got >= nowLo && got <= nowHi
+				if had && before > nowHi {
+					okv = got == before
+				} else if had && before >= nowLo {
+					okv = got >= before && got <= nowHi || got == before
+				}
+				if !okv {
+					c.violation("C09: revoking as of now lowered a stored time or stored another time than the clock's second",
+						map[string]interface{}{"key": k, "stored_before": before, "had_entry": had, "stored_after": got, "now_between": []int64{nowLo, nowHi}, "on_export": onExport})
+				}
+				spec[k] = got
+			} else {
+				t := nowLo + int64(c.Rng.Intn(7)-3)*1000
+				if onExport {
+					ex.RevokeAt(k, time.Unix(t, 0))
+				} else {
+					ac.RevokeAt(k, time.Unix(t, 0))
+				}
+				if old, ok := spec[k]; !ok || old < t {
+					spec[k] = t
+				}
+			}
+			c.sum.Evaluations++
+		}
+		var m jwt.RevocationList
+		if i%2 == 1 {
+			m = ex.Revocations
+		} else {
+			m = ac.Revocations
+		}
+		c.sum.ImplChecks++
+		if len(m) != len(spec) {
+			c.violation("C09: revocation map has other entries than the history implies", map[string]interface{}{"map": fmt.Sprint(m), "spec": fmt.Sprint(spec)})
+		}
+		for k, t := range spec {
+			if m[k] != t {
+				c.violation("C09: stored time differs from the surviving time of the history (with as-of-now revocations)", map[string]interface{}{"key": k, "stored": m[k], "spec": t})
+			}
+		}
+		c.count("as_of_now_history")
+	}
 	w.flush()
 	c.sum.DistinctNontriv = len(distinct)
-	c.sum.Rule = fmt.Sprintf("all histories over revoke{a,b,*}x{1,2,3}, clear{a,b,*}, compact up to length %d (exhaustive), each on AccountClaims and on an Export, followed by 10 IsRevoked and 6 IsClaimRevoked queries, map contents and MaybeCompact results; plus random histories of length 5-40 with encode/decode steps; non-trivial = distinct observation (final map, deleted sets, answers) with a non-empty map or more than one operation", maxLen)
+	c.sum.Rule = fmt.Sprintf("histories mixing RevokeAt (past and future times) with the as-of-now entry points on account and export, the clock bracketed; all histories over revoke{a,b,*}x{1,2,3}, clear{a,b,*}, compact up to length %d (exhaustive), each on AccountClaims and on an Export, followed by 10 IsRevoked and 6 IsClaimRevoked queries, map contents and MaybeCompact results; plus random histories of length 5-40 with encode/decode steps; non-trivial = distinct observation (final map, deleted sets, answers) with a non-empty map or more than one operation", maxLen)
 }
